@@ -323,7 +323,7 @@ func main() {
 		c.Finish("twin(pruned,unpruned) + extracted pruner model; predicate: floor bound, retained unchanged, state from floor-1, below floor pruned-or-exact, resume, revert/extend")
 	}
 	g := hx.NewRNG(c.Seed)
-	short := 10
+	short := 16
 	if c.Thorough() {
 		short = 120
 	}
@@ -337,7 +337,8 @@ func main() {
 		}
 	}
 	// one chain across a bloom-window boundary (8192): window deletes, running filter, carve-outs
-	longs := []bool{c.Seed%2 == 0}
+	// (about 6 minutes per backend: thorough tier only)
+	longs := []bool{}
 	if c.Thorough() {
 		longs = []bool{false, true}
 	}
